@@ -63,10 +63,10 @@ type Req struct {
 	*sarama.VerifRequest
 	Seq int
 	// group coordinator bookkeeping: side effects of a request's arrival are applied once
-	prepared       bool
-	ticksAtArrival int
-	reject         bool
-	memberID       string
+	prepared bool
+	arrival  time.Time
+	reject   bool
+	memberID string
 }
 
 type Conn struct {
